@@ -199,7 +199,8 @@ func (i *Interp) schedule(me *G) {
 			return
 		}
 		// deadlock
-		i.violations = append(i.violations, Violation{Kind: "deadlock", Label: "all goroutines blocked: " + i.describeBlocked()})
+		_, model := i.solver.CheckAll(i.pc)
+		i.violations = append(i.violations, Violation{Kind: "deadlock", Label: "all goroutines blocked: " + i.describeBlocked(), Model: model})
 		i.abortWith(pathEnd{"deadlock"}, me)
 		return
 	}
